@@ -321,6 +321,12 @@ def run_shard(shard, tier):
                         for d in ('7', '0'):
                             run_text(R, ' '.join(toks[:i] + [d * L] + toks[i + 1:]),
                                      'digit-run')
+            # all digit tokens at once (sums of parsed numbers)
+            if sum(1 for t in toks if len(t) == 1 and t.isdigit()) >= 2:
+                for L in RT.DIGIT_RUNS + (4300,):
+                    for d in ('7', '9'):
+                        run_text(R, ' '.join(d * L if (len(t) == 1 and t.isdigit()) else t
+                                             for t in toks), 'digit-run-all')
     elif shard[0] == 'short':
         n = 4 if tier == 'quick' else 5
         if shard[1] == RT.SHORT_ALPHABET[0]:
